@@ -179,8 +179,9 @@ def run(ctx: Ctx):
                     "difference outside the modelled fragment (model answers `unsupported`, oracle skips): fields of "
                     "different types under one name, NumPy broadcasting of unequal shapes, NaN / nested index fields, "
                     "differences of empty epochs"]
-    ctx.assumptions += ["values of the time formats gps_ws / gps_seconds are compared to the microsecond (TimeBase.__new__ stores "
-                        "from_jds(to_jds(value)): one ulp of drift per insert); jd1 / jd2 and all other formats exactly",
+    ctx.assumptions += ["the stored float values of the time formats gps_ws / gps_seconds are not compared (TimeBase.__new__ stores "
+                        "from_jds(to_jds(value)): one ulp of drift per insert, accumulating); their value columns are the exact "
+                        "function of jd1, jd2; jd1 / jd2 and the values of all other formats are compared exactly",
                         "a history ends at the first operation that raises",
                         "all values are exactly representable (integers / dyadic rationals)"]
     # corpus first
